@@ -151,6 +151,18 @@ fn check_case(case: &Case, ctx: &mut Ctx) -> PResult {
         let mut orig = inst0.decision_variables.clone();
         kept.sort_by_key(|v| v.id);
         orig.sort_by_key(|v| v.id);
+        // the encoded variable itself: its bound may be written back as the integer range it contains ([-1.5, 4.2] ->
+        // [-1, 4]); everything else about it, and all other variables, unchanged
+        for (k, o) in kept.iter_mut().zip(orig.iter()) {
+            if k.id == id && o.id == id && k.bound != o.bound {
+                if let (Some(kb), Some(ob)) = (&k.bound, &o.bound) {
+                    if kb.lower.ceil() == ob.lower.ceil() && kb.upper.floor() == ob.upper.floor() && kb.lower >= ob.lower && kb.upper <= ob.upper {
+                        ctx.label("encoded-variable-bound-normalised");
+                        k.bound = o.bound.clone();
+                    }
+                }
+            }
+        }
         if kept != orig {
             return fail("C12/existing-variables-changed", format!("existing variables changed: {}", what()));
         }
@@ -274,7 +286,7 @@ fn check_case(case: &Case, ctx: &mut Ctx) -> PResult {
             let n_before = inst3.decision_variables.len();
             match inst3.log_encode(id) {
                 Ok(l3) => {
-                    let added: BTreeSet<u64> = inst3.decision_variables[n_before..].iter().map(|v| v.id).collect();
+                    let added: BTreeSet<u64> = inst3.decision_variables.iter().map(|v| v.id).filter(|i| !ids_now.contains(i)).collect();
                     let tids: BTreeSet<u64> = l3.terms.iter().map(|t| t.id).collect();
                     if added.iter().any(|i| ids_now.contains(i)) || added.len() != inst3.decision_variables.len() - n_before {
                         return fail("C12/re-encode/new-id-not-fresh", format!("encoding the variable again reused ids {added:?} (existing {ids_now:?}): {}", what()));
